@@ -133,6 +133,7 @@ class UnitResult:
         self.raw_messages = []
         self.drops = []
         self.retries = []
+        self.lost_hints = []
 
 
 def run_unit(modname, keep_dir=None, rlimit=None):
@@ -150,6 +151,7 @@ def run_unit(modname, keep_dir=None, rlimit=None):
         res.wall = time.time() - t0
         return res
     res.rule_counts = dict(ub.rule_counts)
+    res.lost_hints = ['%s #%d' % h for h in getattr(ub, 'lost_hints', [])]
     res.gen_text = text
     res.functions = ub.functions
     res.assumptions = scan_assumptions(text)
